@@ -1,6 +1,6 @@
 (* GENERATED from the working tree by props/C03/cap_stage.py (probe: props/C03/h_cap.c) -- do not edit *)
 From Coq Require Import NArith.
 Local Open Scope N_scope.
-Definition c_id_table_accepts : N := 65536.
+Definition c_id_table_accepts : N := 65535.
 Definition c_id_count_field_bits : N := 16.
 Definition c_id_index_field_bits : N := 16.
